@@ -41,9 +41,9 @@ def rule_gate(ctx):
     v = vcalls[0]
     # Ok(Some(..)) return block
     okb = [d[1] for d in g.ret_defs() if d[0] == 'assign' and canon(g.rvalue_expr(d[3])).startswith('Result::Ok{0: Option::Some')]
-    if len(okb) != 1:
-        raise Unrecognised('gate', 'expected one Ok(Some(block)) return')
-    R = okb[0]
+    if not okb:
+        raise Unrecognised('gate', 'no Ok(Some(block)) return')
+    RS = set(okb)   # a fetch may have one return for the verified and one for the unverified path
     # the switch on self.verify
     sw = None
     for (src, dst), fs in g.edge_facts().items():
@@ -55,9 +55,9 @@ def rule_gate(ctx):
         return
     # from the true edge, R is unreachable without passing the verify call
     reach = g.reach_from(sw[1], avoid=[v.bb])
-    ctx.check('gate', 'verify-on-every-flagged-path', R not in reach, (g, sw[1]),
+    ctx.check('gate', 'verify-on-every-flagged-path', not (RS & set(reach)), (g, sw[1]),
               'Ok(Some(block)) is unreachable from the verify=true edge without calling verify',
-              witness=g.fmt_path(g.shortest_path(sw[1], [R], avoid=[v.bb]) or []))
+              witness=g.fmt_path(g.shortest_path(sw[1], sorted(RS), avoid=[v.bb]) or []))
     # result `?`-propagated: the success continuation is the only way on to R
     ve = mir.strip_sites(g.call_expr(v))
     okp = False
@@ -66,15 +66,15 @@ def rule_gate(ctx):
             continue
         for f in fs:
             if f[0] == 'is' and f[2] == ('Err',) and mir.strip_sites(peel(f[1], calls=False)) == ve:
-                okp = R not in g.reach_from(dst)
+                okp = not (RS & set(g.reach_from(dst)))
     ctx.check('gate', 'verify-error-propagated', okp, v, 'Err of verify cannot reach the Ok(Some(block)) return',
               bad_detail='the Result of verify is not propagated: a failed verification still delivers the block')
     a = [canon(x) for x in g.arg_exprs(v)]
     ctx.check('gate', 'verify-args', a[0] == 'self' and a[1].startswith('read_block(') and a[1].endswith(')?') and a[2] == 'a2', v,
               'verify(self, the block just read, height)')
     # verify happens on the block that is returned
-    ret = canon(g.rvalue_expr([d for d in g.ret_defs() if d[1] == R][0][3]))
-    ctx.check('gate', 'verified-block-is-returned', a[1] in ret, v, 'returned block = verified block')
+    rets2 = [canon(g.rvalue_expr(d[3])) for d in g.ret_defs() if d[1] in RS and d[0] == 'assign']
+    ctx.check('gate', 'verified-block-is-returned', bool(rets2) and all(a[1] in r for r in rets2), v, 'returned block = verified block')
     # flag provenance
     st = prog.one('ChainStorage::new')
     ctx.check('gate', 'flag=options.verify', 'verify: a1.verify' in canon(st.ret_expr()), st, 'ChainStorage.verify = options.verify')
